@@ -246,6 +246,24 @@ def fam_maa(rng, nmax):
         regs = sorted(rng.sample(range(len(funcs)), k))
         funcs.append([regs, [rng.randint(0, 1) for _ in range(1 << k)]])
         room -= 1
+    # constants gating every core variable: f' = K ? f : alt with K a constant.  Half of the
+    # implicants are dead after percolation, so the root's restricted Petri net is much
+    # smaller than the network's net (exercises the restricted-net code paths on the MAA core)
+    if room > 0 and rng.random() < 0.3:
+        nk = rng.randint(1, min(2, room))
+        ks = []
+        for _ in range(nk):
+            ks.append(len(funcs))
+            funcs.append([[], [rng.randint(0, 1)]])
+        room -= nk
+        for tgt in range(n0):
+            regs, tt = funcs[tgt]
+            k = rng.choice(ks)
+            if len(regs) < 4:
+                kval = funcs[k][1][0]
+                alt = [rng.randint(0, 1) for _ in range(len(tt))]
+                # index bit of K is the highest: K=0 -> first half, K=1 -> second half
+                funcs[tgt] = [regs + [k], (alt + tt) if kval == 1 else (tt + alt)]
     # an input gating one core variable: f' = in ? f : g
     if room > 0 and rng.random() < 0.4:
         i_in = len(funcs)
